@@ -18,6 +18,7 @@ DECIDED = [
     "R-C11-SYNC: topics_by_queue[q] = {names of actors registered for q} is re-established by every writer of Router.actors: an overridden name is "
     "evicted from its previous queue and a queue without topics is removed (an empty topic set means 'no filter')",
     "R-C11-WIRING (connection): every connection-bound object (worker, queue, job, runner, handle, MessageDependency) created by a connection-bound object receives the creator's connection; R-C11-FILTER (bounce): RabbitMQ bounces (paused / foreign topic) requeue unconditionally and end the delivery",
+    "R-C11-WIRING (keys): C07's key-encoding rules reused (queue and topic keep their places in Redis keys); R-C11-FILTER (scan): exhaustive paging",
 ]
 NOT_DECIDED = ["behaviour of several workers sharing a queue over time (schedules)"]
 ASSUMPTIONS = ["aiormq basic_reject defaults to requeue=True (re-checked from the installed source in the thorough tier)", "validated names contain no ':' (C07-ALPHABET)"]
